@@ -37,8 +37,11 @@ def paramOf (j : Json) : VParam :=
     conv := convOf (jF j "conv"), validators := (jL (jF j "vals")).map stepOf, flaskJson := jB (jF j "flaskJson") }
 
 def sparamOf (j : Json) : SParam := { name := jN (jF j "name"), dflt := optPvOf (jF j "dflt") }
+/-- `varName` (absent: `args`) is the name of the VAR_POSITIONAL parameter, `tup` the identity the harness gives the tuple
+    object that `bind_partial` builds from the surplus positionals of this call -/
 def sigOf (j : Json) : Sig :=
-  { pos := (jL (jF j "pos")).map sparamOf, varArgs := jB (jF j "varArgs"), kwOnly := (jL (jF j "kwOnly")).map sparamOf }
+  { pos := (jL (jF j "pos")).map sparamOf, varArgs := jB (jF j "varArgs"), kwOnly := (jL (jF j "kwOnly")).map sparamOf,
+    varName := (jOptN (jF j "varName")).getD argsName, tupleOf := fun _ => .obj (jN (jF j "tup")) }
 def reqOf (j : Json) : Req :=
   match j with
   | .arr ks => .json (ks.toList.map jN)
@@ -64,7 +67,8 @@ def exJ {α} (f : α → Json) : Except VExc α → Json
   | .ok a => mkObj [("ok", f a)]
   | .error e => mkObj [("exc", excJ e)]
 
-def handle (c : Json) : Json :=
+/-- one decorated function + one call -/
+def handleOne (c : Json) : Json :=
   let cfg : Cfg := { ps := (jL (jF c "ps")).map paramOf, sig := sigOf (jF c "sig"), strict := jB (jF c "strict"),
                      ignoreInput := jB (jF c "ignore"), req := reqOf (jF c "req") }
   let args := (jL (jF c "args")).map pvOf
@@ -73,10 +77,20 @@ def handle (c : Json) : Json :=
   let g := gate cfg args kw
   -- the coarse set of permitted values is only consulted for `*args` functions and when the name `self` is in play
   let needAllowed := cfg.sig.varArgs || kw.any (·.1 == selfName) || cfg.ps.any (·.name == selfName)
+    || (cfg.sig.pos.drop 1 ++ cfg.sig.kwOnly).any (·.name == selfName)
   mkObj [("model", exJ bindingJ (runValidate cfg (jB (jF c "async")) m args kw)),
          ("spec", mkObj [("byName", exJ assocJ (byName cfg m args kw)),
                          ("gate", mkObj [("journal", jArr (g.journal.map fun e => jArr [jNat e.1, jNat e.2.1, pvJ e.2.2])),
                                          ("out", exJ assocJ g.out)]),
                          ("allowed", jArr (if needAllowed then (allowedValues cfg args kw).map pvJ else []))])]
+
+/-- a single call, or a scenario `{"calls": [<call>, …]}` — a history of calls of one or two decorated functions, some of them
+    made by a validator of another call while that call is still running.  The model answers for every call on its own:
+    by `call_outcome_independent_of_other_calls` (Props/C12.lean) the outcome of a call is a function of its own arguments only,
+    whatever ran before it and whatever its validators do while it runs. -/
+def handle (c : Json) : Json :=
+  match jF c "calls" with
+  | .arr cs => mkObj [("calls", jArr (cs.toList.map handleOne))]
+  | _ => handleOne c
 
 end PedVerif.Drv.Validate
